@@ -285,7 +285,8 @@ func runProperty(eng *Engine, prop, tier string, timeout int, findings []Finding
 	}
 	sort.Strings(keys)
 	sweepOnly := map[string]bool{}
-	if prop == "C10" {
+	if prop == "C10" || prop == "C11" {
+		// C11 (shared-state half): the same sweep, counting only the frame:global obligations
 		// totality: every function of the analyzers, with its contract if it has one, zero-annotation otherwise;
 		// only the no-panic obligations (safe:*, implicit non-nil preconditions at calls) are counted here
 		have := map[string]bool{}
@@ -322,6 +323,9 @@ func runProperty(eng *Engine, prop, tier string, timeout int, findings []Finding
 		}
 		res.Funcs = append(res.Funcs, shortFuncKey(k))
 		for i, o := range rep.Obls {
+			if prop == "C11" && o.Kind != "frame:global" && !o.Cover {
+				continue
+			}
 			if prop == "C10" && !(strings.HasPrefix(o.Kind, "safe") || o.Kind == "dec" || (o.Kind == "pre" && (strings.Contains(o.Sub, "#recv") || strings.Contains(o.Sub, "#nonnil"))) || o.Cover) {
 				continue
 			}
@@ -769,6 +773,11 @@ func writeEvidence(vdir, prop, tier string, seed int, res *CheckResult, wall flo
 	if total == 0 || discharged+modulo < total || undecided > 0 {
 		level = "other"
 		cov["explanation"] = fmt.Sprintf("%d of %d obligation groups discharged (%d only outside listed known-finding shapes); %d undecided items: this run is not a complete proof", discharged, total, modulo, len(res.Undecided))
+	}
+	if prop == "C11" && level == "proof" {
+		// the obligations decide only the shared-state half of the property (see MANIFEST level text)
+		level = "other"
+		cov["explanation"] = "all generated obligations discharged; they cover only writes to package-level state, not schedules or races"
 	}
 	ev["level"] = level
 	cov["obligations"] = total
